@@ -16,6 +16,7 @@ def run_game_traces(ctx, scenario, shards, games, plies, extra=None, timeout=300
         if extra:
             args += extra
         summ = harness(args, timeout=timeout)
+        summ["args"] = [str(a) for a in args]
         r = tlc.run("Trace_Engine", "Trace_Engine.cfg", env={"TRACE": out}, workers=1, want_records=True, stack="64m",
                     heap="1500m", young="300m", timeout=timeout)
         return i, out, summ, r
@@ -53,6 +54,7 @@ def run_game_traces(ctx, scenario, shards, games, plies, extra=None, timeout=300
                 x["history_tail"] = hist
                 x["trace_seed"] = ctx.seed * 1000 + i
                 x["scenario"] = "game:" + scenario
+                x["harness_args"] = summ["args"]
                 bad.append(x)
         if len(ctx.samples) < 2 and summ["events"] > 3:
             with open(out) as f:
@@ -77,7 +79,7 @@ def absorb_game(ctx, bad, evs):
             n += 1
             ctx.violation(b["why"], {"binding": "B2 trace validation (Trace_Engine, game events)", "event_line": b["bad"], "event": b.get("ev"),
                                      "differs": b.get("diff"), "spec_says": b.get("x"), "scenario": b.get("scenario"),
-                                     "trace_seed": b.get("trace_seed"), "history_tail": b.get("history_tail")},
+                                     "trace_seed": b.get("trace_seed"), "harness_args": b.get("harness_args"), "history_tail": b.get("history_tail")},
                           sig={"ev": b.get("ev")})
     return n
 
